@@ -319,6 +319,20 @@ typename std::enable_if<S != 'c', bool>::type runPurity(const Req& r, Resp& R) {
     }
     return false;
   }
+  if (op.compare(0, 6, "exprt_") == 0 && a.size() == (size_t)DoF) {
+    // a tangent assigned from an Eigen expression that reads its own coefficients (directly, or through a second
+    // view of the same memory): Eigen evaluates a product into a temporary unless told `noalias()`
+    TOperand<T, S> x(a.data());
+    Eigen::Matrix<typename G::Scalar, DoF, DoF> M;
+    for (int i = 0; i < DoF; ++i) for (int j = 0; j < DoF; ++j) M(i, j) = (typename G::Scalar)(((i * 7 + j * 3) % 5) - 2 + (i == j ? 0.25 : 0.0));
+    if (op == "exprt_selfprod") x.mut() = M * x.get().coeffs();
+    else if (op == "exprt_selfprod_cv") { Eigen::Map<const T> v(x.raw()); x.mut() = M * v.coeffs(); }
+    else if (op == "exprt_selfsum") x.mut() = x.get().coeffs() + M * x.get().coeffs();
+    else if (op == "exprt_selfscale") x.mut() = x.get().coeffs() * (typename G::Scalar)0.5 + x.get().coeffs();
+    else return false;
+    for (int i = 0; i < DoF; ++i) out.push_back((double)x.raw()[i]);
+    return true;
+  }
   if (op.compare(0, 4, "blk_") != 0) return false;
   const std::string base = op.substr(4);
   const bool w0 = r.mask & 1, w1 = r.mask & 2;
